@@ -42,6 +42,22 @@ def cases(tier, seed):
     for st in lattice.mask_structures(3, hermitian=True):
         if len(st["sizes"]) == 1:
             out.append(dict(st, repr="dense", vset=0, total=4, bare=True))
+    if tier == "quick":
+        # N = 4 sparse slice with a degenerate level kept inside a fully diagonalised block
+        import itertools
+
+        for sizes in ((2, 2), (1, 1, 2), (1, 3)):
+            for E in lattice.level_patterns(sizes):
+                if len({tuple(e) for e in E}) == len(E):
+                    continue
+                nb = len(sizes)
+                for r in range(1, nb + 1):
+                    for fd in itertools.combinations(range(nb), r):
+                        for pat in ("dense", "offdiag"):
+                            for vs in (0, 1):
+                                for req in ("asc", "desc"):
+                                    out.append(dict(sizes=list(sizes), E=E, k=1, support=[[1]], pattern=pat, fd=list(fd),
+                                                    mask=None, hermitian=True, repr="csr", vset=vs, total=3, req=req))
     if tier != "quick":
         # the 4-block composition and N = 5 layouts
         for sizes in ((1, 1, 1, 1), (2, 3), (1, 4), (5,)):
@@ -55,7 +71,7 @@ def cases(tier, seed):
         c["seed"] = seed
     # both request orders on alternating cases (lower/upper triangle first)
     for i, c in enumerate(out):
-        c["req"] = "asc" if i % 2 == 0 else "desc"
+        c.setdefault("req", "asc" if i % 2 == 0 else "desc")
     return out
 
 
